@@ -576,7 +576,8 @@ def read_through(fn_node, simple_calls=("abs", "min", "max", "float", "int", "le
             for x in ast.walk(v):
                 if isinstance(x, ast.Call) and not (isinstance(x.func, ast.Name) and x.func.id in simple_calls):
                     return False
-                if isinstance(x, (ast.Lambda, ast.ListComp, ast.GeneratorExp, ast.DictComp, ast.SetComp, ast.Yield, ast.Await, ast.NamedExpr, ast.IfExp, ast.Subscript)):
+                if isinstance(x, (ast.Lambda, ast.ListComp, ast.GeneratorExp, ast.DictComp, ast.SetComp, ast.Yield, ast.Await, ast.NamedExpr, ast.IfExp, ast.Subscript,
+                                  ast.List, ast.Dict, ast.Set)):   # (a display creates a new container: a name for it is not an alias of anything)
                     return False
             return True
 
